@@ -7,6 +7,8 @@
                        order of the -h / -l tests, re-export of MAGEFILE_VERBOSE by os.Setenv
      mg/runtime.go     Verbose, Debug, GoCmd
      os/exec           the child's environment keeps the LAST entry of a key (dedupEnv)
+     flag package      Model/FlagPkg.v: both programs parse their words with flag.FlagSet; what the front end
+                       leaves over (everything behind a consumed "--" included) is parsed AGAIN by the generated main
 
    An environment is the list os.Environ() returns: (key, value) pairs in order; the split of "k=v" at
    the first '=' is the operating system's convention and is not modelled (keys contain no '=').
